@@ -241,7 +241,9 @@ def single_attr_oracle(case: dict, tmp: Path, tag: str) -> list:
         if src == "preset":
             t.set_cell_style(1, 1, case.get("preset", "Body"))
         else:
-            st0 = doc.add_style(name="Mine", bold=False, font_size=12.0)
+            init = dict(name="Mine", bold=False, font_size=12.0)
+            init.update(style_kwargs(case.get("initial", {})))
+            st0 = doc.add_style(**init)
             t.set_cell_style(1, 1, st0)
             doc.save(tmp / f"{tag}_0.numbers")
         st = t.cell(1, 1).style
@@ -437,6 +439,13 @@ def run_styles(ctx: Ctx, exe):
     singles = [{"kind": "single-attr", "source": src, "attr": a, "value": v} for src in ("preset", "added") for a, vs in SINGLE_VALUES.items() for v in vs]
     if ctx.quick:
         singles = [c for i, c in enumerate(singles) if c["attr"] == "alignment" or i % 2 == ctx.seed % 2]
+    # an attribute of a saved style set BACK to its default value (automatic alignment, not bold, black, no fill, ...)
+    resets = [("alignment", [4, 0], {"alignment": ["right", "top"]}), ("alignment", [4, 0], {"alignment": ["center", "bottom"]}),
+              ("bold", False, {"bold": True}), ("italic", False, {"italic": True}), ("underline", False, {"underline": True}),
+              ("strikethrough", False, {"strikethrough": True}), ("font_color", [0, 0, 0], {"font_color": [200, 10, 10]}),
+              ("text_wrap", True, {"text_wrap": False}), ("first_indent", 0.0, {"first_indent": 5.0}), ("left_indent", 0.0, {"left_indent": 5.0}),
+              ("right_indent", 0.0, {"right_indent": 5.0}), ("font_size", 10.0, {"font_size": 18.0})]
+    singles += [{"kind": "single-attr", "source": "added", "attr": a, "value": v, "initial": ini} for a, v, ini in resets]
     for i, case in enumerate(singles):
         ctx.count("oracle-single-attr")
         ctx.nontrivial(("single-attr", json.dumps(case, sort_keys=True)))
